@@ -37,6 +37,7 @@ var c01Schemas = []c01Schema{
 	{"a", []string{"string"}}, {"a ", []string{"string"}}, {"A", []string{"string"}}, {"ab", []string{"int64"}}, {"é", []string{"string"}},
 	{"q\"\\", []string{"string"}}, {"bins", []string{"bins"}}, {"any", []string{"any"}}, {"strs", []string{"strs", "string"}}, {"two-bin", []string{"binary", "binary", "bool"}},
 	{"big", []string{"binary"}}, {"bigs", []string{"string"}},
+	{"loose", []string{"loose"}}, {"ploose", []string{"ploose", "int64"}},
 }
 
 func (s c01Schema) lastParamString() bool {
@@ -58,6 +59,7 @@ type c01Case struct {
 	MaxBuffer int64     `json:"max_buffer"` // 0 = default (1e6)
 	Clients   int       `json:"clients"`
 	DelayMs   int       `json:"delay_ms"` // virtual delay between connect and the first emit (lets emits fall into the upgrade)
+	Gzip      bool      `json:"gzip"`     // the server sits behind a compression middleware (the polling client asks for gzip itself)
 	Emits     []c01Emit `json:"emits"`
 }
 
@@ -116,6 +118,9 @@ func c01Transports(kind string) []string {
 
 func (c c01Case) class() string {
 	cls := c.Transport
+	if c.Gzip {
+		cls += ",gzip"
+	}
 	if c.Recovery {
 		cls += ",recovery"
 		for _, e := range c.Emits {
@@ -160,7 +165,7 @@ func evalC01(c c01Case) (f *Failure, nontrivial bool) {
 	journal(c01Check, class, c)
 	var res *Failure
 	rec := &c01Recorder{recv: map[string][]c01Recv{}}
-	msg := runRig(rigOpts{Recovery: c.Recovery, MaxBuffer: c.MaxBuffer}, func(r *rig) {
+	msg := runRig(rigOpts{Recovery: c.Recovery, MaxBuffer: c.MaxBuffer, Gzip: c.Gzip}, func(r *rig) {
 		var mu sync.Mutex
 		srvSockets := map[int]sio.ServerSocket{}
 		serverDisconnects := []string{}
@@ -420,6 +425,7 @@ func genC01Case(t *rapid.T, kf1 bool, excluded *int64) c01Case {
 		Recovery:  rapid.IntRange(0, 3).Draw(t, "recovery") == 0,
 		MaxBuffer: rapid.SampledFrom([]int64{0, 0, 65536, 262144}).Draw(t, "maxbuffer"),
 		Clients:   rapid.IntRange(1, 3).Draw(t, "clients"),
+		Gzip:      rapid.IntRange(0, 3).Draw(t, "gzip") == 0,
 	}
 	if c.Transport == "upgrade" {
 		c.DelayMs = rapid.SampledFrom([]int{0, 0, 1, 5, 1000}).Draw(t, "delay")
